@@ -307,12 +307,12 @@ theorem tallyOne_core {env : Env} {s s' : St} {u : String} (h : tallyOne env s u
         simp only [Res.ok.injEq] at h; subst h
         simp only [hs, if_true]
         split at h3
-        · split at h3
-          · cases h3
-          · simp only [Res.ok.injEq] at h3; subst h3
-            have c := pay_fold_core (it.invColl ++ rewardShare it.pubColl ((invsOf s u).length : Int)) (invsOf s u)
-              { s with items := setItem s.items { it with status := .rej, ts := s.now } }
-            exact ⟨c.now, c.params, c.height, .rej, Or.inr rfl, c.items⟩
+        · simp only [Res.ok.injEq] at h3; subst h3
+          have c := pay_fold_core
+            (it.invColl ++ rewardShare (if ((invsOf s u).length : Int) = 0 then [] else it.pubColl)
+              ((invsOf s u).length : Int)) (invsOf s u)
+            { s with items := setItem s.items { it with status := .rej, ts := s.now } }
+          exact ⟨c.now, c.params, c.height, .rej, Or.inr rfl, c.items⟩
         · have c := settle_fold_core it.invColl
             (tallyOutcome s.params.rf it (proofsOf s u) env.active (env.assign u)).safe (invsOf s u)
             ({ s with items := setItem s.items { it with status := .ver, ts := s.now } }, it.pubColl)
